@@ -793,6 +793,10 @@ class Mapping(Container, dict):
         # The key will always either be present or not creatable.
         raise TypeError("%s keys are immutable." % type(self).__name__)
 
+    def __ior__(self, dictish):
+        self.update(dictish)
+        return self
+
     def get(self, key, default=None):
         if key not in self:
             raise KeyError(
